@@ -215,6 +215,93 @@ def soapUnwrapTree {ε τ : Type} [DecidableEq τ] (tagOf : ε → τ) (expected
     | some [e] => if tagOf e ∈ expected then .elem e else .refused
     | some _ => .refused
 
+/-! ### SOAP with header blocks, receiver side
+    (`soap.class_instances_from_soap_enveloped_saml_thingies` + `instanciate_class`, reached through
+    `Entity.parse_soap_message`, `saml2.ecp.handle_ecp_authn_response`, `Base.parse_ecp_authn_response`) -/
+
+inductive Opened (ε : Type) where
+  | ok (header : List ε) (body : Option ε)    -- `{"header": [...], "body": … | None}`
+  | refused                                   -- any exception
+deriving DecidableEq, Repr
+
+/-- The loop over the envelope's parts.  `known e` = some module has the element's namespace and
+    lists its local name in `ELEMENT_BY_TAG` (else `instanciate_class` raises).  Every Body part
+    overwrites `env["body"]` with ITS FIRST child (no `break`, no count check; an empty Body is an
+    `IndexError`); every Header part appends all its children; other parts are skipped. -/
+def openParts {ε : Type} (known : ε → Bool) : List (Part ε) → List ε → Option ε → Opened ε
+  | [], hs, b => .ok hs b
+  | .body [] :: _, _, _ => .refused
+  | .body (e :: _) :: rest, hs, _ => if known e then openParts known rest hs (some e) else .refused
+  | .header cs :: rest, hs, b => if cs.all known then openParts known rest (hs ++ cs) b else .refused
+  | .other :: rest, hs, b => openParts known rest hs b
+
+/-- `class_instances_from_soap_enveloped_saml_thingies(text, modules)` on the parsed envelope. -/
+def soapOpenTree {ε : Type} (known : ε → Bool) (env : Envelope ε) : Opened ε :=
+  if !env.tagOk then .refused
+  else if env.parts.isEmpty then .refused
+  else openParts known env.parts [] none
+
+/-- All children of all Header parts, in document order. -/
+def headerItems {ε : Type} : List (Part ε) → List ε
+  | [] => []
+  | .header cs :: rest => cs ++ headerItems rest
+  | _ :: rest => headerItems rest
+
+/-- The child lists of the Body parts, in document order. -/
+def bodyParts {ε : Type} : List (Part ε) → List (List ε)
+  | [] => []
+  | .body cs :: rest => cs :: bodyParts rest
+  | _ :: rest => bodyParts rest
+
+/-- The first child of the last Body part (`none` = no Body part, `some none` = it is empty). -/
+def lastBodyHead {ε : Type} : List (Part ε) → Option (Option ε) → Option (Option ε)
+  | [], acc => acc
+  | .body cs :: rest, _ => lastBodyHead rest (some cs.head?)
+  | _ :: rest, acc => lastBodyHead rest acc
+
+/-! ### The URI binding (`HTTPBase.use_http_uri`); `Entity.unravel` for the bindings that do not
+    transform (`BINDING_URI`, `None`) and for a binding it does not know -/
+
+def sID : Bytes := [73, 68]
+
+/-- `str.strip()` on code points. -/
+def pyStrip (t : List Nat) : List Nat := ((t.dropWhile pyIsSpace).reverse.dropWhile pyIsSpace).reverse
+
+/-- `message.split("\n")[1]` if the message has a line break (the text between the first and the
+    second one), else `message.strip()`. -/
+def uriData (msg : List Nat) : List Nat :=
+  if msg.contains 10 then ((msg.dropWhile (· != 10)).drop 1).takeWhile (· != 10) else pyStrip msg
+
+/-- `use_http_uri(message, "SAMLRequest", destination, relay_state)["url"]`: always `?` (this code
+    does not go through `add_query`). -/
+def uriUrl (msg dest rs : Bytes) : Bytes := dest ++ [63] ++ urlencode (withRelay (sID, msg) rs)
+
+inductive UriInfo where
+  | response (data : List Nat)     -- code points of `info["data"]`
+  | request (url : Bytes)
+deriving DecidableEq, Repr
+
+/-- `use_http_uri(message, typ, destination, relay_state)`; `msgPts` are the message's code points,
+    `msg` its UTF-8 bytes.  Any other `typ`: `NotImplementedError`. -/
+def useHttpUri (typ : Bytes) (msgPts : List Nat) (msg dest rs : Bytes) : Option UriInfo :=
+  if typ = sSAMLResponse then some (.response (uriData msgPts))
+  else if typ = sSAMLRequest then some (.request (uriUrl msg dest rs))
+  else none
+
+inductive BindingKind where
+  | redirect | post | artifact | plain | unknown
+deriving DecidableEq, Repr
+
+/-- `Entity.unravel(txt, binding)` for the bindings that carry text (SOAP is `soapUnwrapTree`):
+    `plain` = `BINDING_URI` or `None` (the text itself), `unknown` = `UnknownBinding`. -/
+def unravel (inflate : Bytes → Option Bytes) (k : BindingKind) (txt : Bytes) : Option Bytes :=
+  match k with
+  | .redirect => unravelRedirect inflate txt
+  | .post => unravelPost inflate txt
+  | .artifact => unravelArtifact txt
+  | .plain => some txt
+  | .unknown => none
+
 /-! ### Artifacts -/
 
 def artifactTypecode : Bytes := [0, 4]
